@@ -90,6 +90,18 @@ CLAIMED = {
         "legs through the real authorization and token endpoints over configurations x verifier mutations, and real client add-on pairs.",
    note="SHA-2/base64 are the parameter H (values computed by the harness with hashlib); code resolution and token minting are C04/C02.",
    technique="Lean 4 proof (decision logic, hash uninterpreted; kernel-decided table obligations) + endpoint correspondence", ref="6 C15"),
+ "C01": dict(
+   text="Lean theorems over a literal model of verify_client (method loop, 'other exception means next method', jti recorded before the per-client "
+        "filter, secret expiry): accept_sound — a request is treated as client X via method m only if m is in the endpoint's list, allowed by "
+        "X's registration, X's secret unexpired and the request carries X's credential for m (Basic/POST secret equal to the stored one; "
+        "assertion that unpacks under the issuer's keys, right algorithm family for the method, oct key = stored secret, audience = endpoint, "
+        "issuer = X, jti not in the replay cache); replayed_assertion_not_accepted + jti_monotone — once (iss,jti) is recorded no JWT method "
+        "accepts it after any number of intervening requests; no_jti_is_replayable — proved counter-example for the stronger reading (F-C01-a). "
+        "Tie: histories against the real token/introspection/revocation/userinfo endpoints with credentials built concretely by cryptojwt; "
+        "outcome and replay-cache size compared after every request; ground-truth oracle.",
+   note="JWS signature verification and exp enforcement are inside cryptojwt (field `unpack`, computed by the harness by calling cryptojwt directly); "
+        "request_param and bearer_body methods not modelled; 'refused yields no tokens' is exercised through C02/C03 harnesses rather than here.",
+   technique="Lean 4 proof (decision logic + monotone replay-cache invariant over request histories) + endpoint correspondence with concrete credentials", ref="6 C01"),
 }
 NOT_YET = {}
 ALL = [f"C{i:02d}" for i in range(1, 21)]
